@@ -4,6 +4,7 @@ package connectconformance
 
 import (
 	"bytes"
+	"encoding/json"
 	"fmt"
 	"testing"
 
@@ -201,4 +202,108 @@ func TestVerifC19Padding(t *testing.T) {
 	rep.Sample(map[string]any{"message_type": "UnaryRequest", "existing_request_data_len": 128, "size_relative_to_limit": -188414, "expect": "proto.Size == 16386 or an error"})
 	rep.RequireMin("expanded", 500)
 	rep.RequireMin("rejected", 50)
+}
+
+// TestVerifC19LoaderPadding: the expansion directive as the suite loader
+// applies it (parseTestSuites), for suites of every kind.
+func TestVerifC19LoaderPadding(t *testing.T) {
+	rep := verifkit.Begin("C19", "loader-padding", "suite files (YAML) with expandRequests directives through parseTestSuites: suites with and without reliesOnMessageReceiveLimit, every mode, 1-3 test cases of all five stream types, 1-3 request messages with present/absent directives at offsets {-1000,-1,0,1,5,1000}; oracle: every loaded request message with a directive has proto.Size == 204800+offset (or the loader rejects the file), messages without a directive are unchanged; distinct = (suite flags, stream type, offsets)")
+	defer rep.Write()
+	rng := verifkit.Stream("c19loader")
+	n := verifkit.Scale(150, 3000)
+	for it := 0; it < n; it++ {
+		relies := rng.Bool()
+		mode := rng.Intn(3)
+		suite := map[string]any{"name": fmt.Sprintf("Sizes %d", it), "relevantCodecs": []string{"CODEC_PROTO"}}
+		if relies {
+			suite["reliesOnMessageReceiveLimit"] = true
+		}
+		if mode > 0 {
+			suite["mode"] = []string{"", "TEST_MODE_CLIENT", "TEST_MODE_SERVER"}[mode]
+		}
+		type want struct {
+			name    string
+			offsets []*int
+			before  []int
+		}
+		var wants []want
+		var tcs []any
+		for k := 1 + rng.Intn(3); k > 0; k-- {
+			st := 1 + rng.Intn(5)
+			stName := []string{"", "STREAM_TYPE_UNARY", "STREAM_TYPE_CLIENT_STREAM", "STREAM_TYPE_SERVER_STREAM", "STREAM_TYPE_HALF_DUPLEX_BIDI_STREAM", "STREAM_TYPE_FULL_DUPLEX_BIDI_STREAM"}[st]
+			typ := []string{"", "UnaryRequest", "ClientStreamRequest", "ServerStreamRequest", "BidiStreamRequest", "BidiStreamRequest"}[st]
+			nmsg := 1
+			if st == 2 || st >= 4 {
+				nmsg = 1 + rng.Intn(3)
+			}
+			wn := want{name: fmt.Sprintf("case-%d-%d", it, k)}
+			var msgs, dirs []any
+			for m := 0; m < nmsg; m++ {
+				data := rng.Bytes(rng.Intn(20))
+				msgs = append(msgs, map[string]any{"@type": "type.googleapis.com/connectrpc.conformance.v1." + typ, "requestData": data})
+				wn.before = append(wn.before, len(data))
+				if rng.Chance(2, 3) {
+					off := verifkit.Pick(rng, []int{-1000, -1, 0, 1, 5, 1000})
+					wn.offsets = append(wn.offsets, &off)
+					dirs = append(dirs, map[string]any{"sizeRelativeToLimit": off})
+				} else {
+					wn.offsets = append(wn.offsets, nil)
+					dirs = append(dirs, map[string]any{})
+				}
+			}
+			tcs = append(tcs, map[string]any{"request": map[string]any{"testName": wn.name, "streamType": stName, "requestMessages": msgs}, "expandRequests": dirs})
+			wants = append(wants, wn)
+		}
+		suite["testCases"] = tcs
+		js, _ := json.Marshal(suite)
+		rep.Eval(1)
+		rep.DistinctKey(relies, mode, string(js))
+		w := map[string]any{"suite_file": verifkit.Trunc(string(js), 1500)}
+		var parsed map[string]*conformancev1.TestSuite
+		var err error
+		if p := verifkit.Catch(func() { parsed, err = parseTestSuites(map[string][]byte{"sizes.yaml": js}) }); p != nil {
+			rep.Violation("padding/loader/panic/"+p.Site, p.Value, w)
+			continue
+		}
+		if err != nil {
+			rep.Count("loader_rejected", 1)
+			rep.Violation("padding/loader/rejected", "a suite with ordinary expansion directives was rejected: "+err.Error(), w)
+			continue
+		}
+		for _, s := range parsed {
+			for _, tc := range s.TestCases {
+				for _, wn := range wants {
+					if wn.name != tc.Request.TestName {
+						continue
+					}
+					for i, a := range tc.Request.RequestMessages {
+						m, uerr := a.UnmarshalNew()
+						if uerr != nil {
+							rep.Violation("padding/loader/undecodable", uerr.Error(), w)
+							continue
+						}
+						size := proto.Size(m)
+						if wn.offsets[i] == nil {
+							rd := m.ProtoReflect().Get(m.ProtoReflect().Descriptor().Fields().ByName("request_data")).Bytes()
+							if len(rd) != wn.before[i] {
+								rep.Violation("padding/loader/undirected-message-changed", fmt.Sprintf("%s message #%d has no directive but its request_data went from %d to %d bytes", wn.name, i+1, wn.before[i], len(rd)), w)
+							}
+							continue
+						}
+						target := int(serverReceiveLimit) + *wn.offsets[i]
+						rep.Count("loader_directives_checked", 1)
+						if size != target {
+							flag := "without"
+							if relies {
+								flag = "with"
+							}
+							rep.Violation("padding/loader/not-expanded/suite-"+flag+"-receive-limit-flag", fmt.Sprintf("%s message #%d: directive %+d gives %d bytes, loaded message has %d (suite %s reliesOnMessageReceiveLimit)", wn.name, i+1, *wn.offsets[i], target, size, flag), w)
+						}
+					}
+				}
+			}
+		}
+	}
+	rep.Sample(map[string]any{"suite": "reliesOnMessageReceiveLimit unset, client stream, directives [+1, none]", "expect": "message 1 is 204801 bytes, message 2 untouched"})
+	rep.RequireMin("loader_directives_checked", 100)
 }
